@@ -2,6 +2,7 @@ package main
 
 import (
 	"fmt"
+	"go/constant"
 	"go/token"
 
 	"golang.org/x/tools/go/ssa"
@@ -172,6 +173,184 @@ func checkCompactionRanges(p *Prog, r *Roles, res *Result, rule string) {
 			res.bad(rule, construct, p.pos(bs[0].app.Pos()), "a range border is encoded with a non-zero revision: the index record (revision 0) of the first key of a range falls outside it")
 		default:
 			res.ok(rule, construct, p.pos(bs[0].app.Pos()), "Encode(k, 0) and Encode(upper(k), 0) of the same k")
+		}
+	}
+	// (d) every prefix is made a directory before it is encoded: the configured string itself where it was found to end
+	// in "/", the string plus "/" where it was found not to - under no other condition. (A prefix used as it is without
+	// the test, e.g. an empty one, gives borders that enclose what should be outside; a "/" appended to a prefix that
+	// has one gives a directory nothing lives in, and the skipped directory is compacted.)
+	{
+		isSlash := func(v ssa.Value) bool {
+			k, ok := resolve(v).(*ssa.Const)
+			return ok && k.Value != nil && k.Value.Kind() == constant.String && constant.StringVal(k.Value) == "/"
+		}
+		stringsFn := func(v ssa.Value, name string) (*ssa.Call, bool) {
+			c, ok := resolve(v).(*ssa.Call)
+			if !ok {
+				return nil, false
+			}
+			sc := c.Common().StaticCallee()
+			return c, sc != nil && sc.Pkg != nil && sc.Pkg.Pkg.Path() == "strings" && sc.Name() == name
+		}
+		hasSuffixFact := func(facts []condFact, base ssa.Value, want bool) bool {
+			for _, cf := range facts {
+				if cf.Call == nil || cf.Want != want {
+					continue
+				}
+				if c, ok := stringsFn(cf.Call, "HasSuffix"); ok && resolve(c.Common().Args[0]) == base && isSlash(c.Common().Args[1]) {
+					return true
+				}
+			}
+			return false
+		}
+		// the facts that hold when control enters block `to` from block `at` (at == nil: the facts dominating `to`)
+		factsOn := func(at, to *ssa.BasicBlock) []condFact {
+			if at == nil {
+				return dominatingFacts(to)
+			}
+			fs := dominatingFacts(at)
+			if ifOf(at) != nil && to != nil {
+				for si, sc := range at.Succs {
+					if sc == to && at.Succs[1-si] != to {
+						fs = append(fs, expandFact(edgeFact(edge{at, si}), 0)...)
+					}
+				}
+			}
+			return fs
+		}
+		var judge func(v ssa.Value, at, to *ssa.BasicBlock, depth int) (string, bool)
+		judge = func(v ssa.Value, at, to *ssa.BasicBlock, depth int) (string, bool) {
+			v = resolve(v)
+			if depth > 5 {
+				return "the prefix of a border pair is not recognised as a directory", false
+			}
+			if phi, ok := v.(*ssa.Phi); ok {
+				for i, e := range phi.Edges {
+					if why, ok := judge(e, phi.Block().Preds[i], phi.Block(), depth+1); !ok {
+						return why, false
+					}
+				}
+				return "the string itself where it ends in '/', the string plus '/' where it does not", true
+			}
+			if bo, ok := v.(*ssa.BinOp); ok && bo.Op == token.ADD && isSlash(bo.Y) {
+				base := resolve(bo.X)
+				if c, ok := stringsFn(base, "TrimSuffix"); ok && isSlash(c.Common().Args[1]) {
+					return "TrimSuffix(s, \"/\") + \"/\"", true
+				}
+				if c, ok := stringsFn(base, "TrimRight"); ok && isSlash(c.Common().Args[1]) {
+					return "TrimRight(s, \"/\") + \"/\"", true
+				}
+				facts := append(dominatingFacts(bo.Block()), factsOn(at, to)...)
+				if hasSuffixFact(facts, base, false) {
+					return "s + \"/\" where s was found not to end in '/'", true
+				}
+				return "a '/' is appended to a prefix that was not found to lack one: a configured prefix that ends in '/' becomes a directory nothing lives in ('a//'), its real directory is no longer skipped and gets compacted", false
+			}
+			if c, ok := v.(*ssa.Call); ok {
+				if sc := c.Common().StaticCallee(); sc != nil && sc.Blocks != nil && sc.Pkg == bp && len(sc.Params) >= 1 && !c.Common().IsInvoke() {
+					n := 0
+					for _, blk := range sc.Blocks {
+						ret, ok := blk.Instrs[len(blk.Instrs)-1].(*ssa.Return)
+						if !ok || blk.Comment == "recover" || len(ret.Results) != 1 {
+							continue
+						}
+						n++
+						if why, ok := judge(ret.Results[0], nil, blk, depth+1); !ok {
+							return why, false
+						}
+					}
+					if n > 0 {
+						return "directory form computed by " + funcName(sc), true
+					}
+				}
+			}
+			// an element of a list of prefixes that was built earlier in the function: every string put on the list
+			if ld, ok := v.(*ssa.UnOp); ok && ld.Op == token.MUL {
+				if ia, ok := ld.X.(*ssa.IndexAddr); ok {
+					type elemAt struct {
+						v  ssa.Value
+						at *ssa.BasicBlock
+					}
+					var elems []elemAt
+					seen := map[ssa.Value]bool{}
+					complete := true
+					var collect func(sv ssa.Value, d int)
+					collect = func(sv ssa.Value, d int) {
+						sv = resolve(sv)
+						if seen[sv] || d > 8 {
+							return
+						}
+						seen[sv] = true
+						switch x := sv.(type) {
+						case *ssa.Const:
+							if x.Value != nil {
+								complete = false
+							}
+						case *ssa.MakeSlice:
+							if n, ok := constInt(x.Len); !ok || n != 0 {
+								complete = false
+							}
+						case *ssa.Phi:
+							for _, e := range x.Edges {
+								collect(e, d+1)
+							}
+						case *ssa.Call:
+							bi, ok := x.Common().Value.(*ssa.Builtin)
+							if !ok || bi.Name() != "append" || len(x.Common().Args) != 2 {
+								complete = false
+								return
+							}
+							collect(x.Common().Args[0], d+1)
+							sl, ok := x.Common().Args[1].(*ssa.Slice)
+							if !ok {
+								complete = false
+								return
+							}
+							arr, ok := sl.X.(*ssa.Alloc)
+							if !ok {
+								complete = false // append(list, other...): strings taken over as they are
+								return
+							}
+							for _, ref := range *arr.Referrers() {
+								if ia2, ok := ref.(*ssa.IndexAddr); ok {
+									for _, r2 := range *ia2.Referrers() {
+										if st, ok := r2.(*ssa.Store); ok {
+											elems = append(elems, elemAt{st.Val, st.Block()})
+										}
+									}
+								}
+							}
+						default:
+							complete = false
+						}
+					}
+					collect(ia.X, 0)
+					if complete && len(elems) > 0 {
+						for _, e := range elems {
+							if why, ok := judge(e.v, nil, e.at, depth+1); !ok {
+								return why, false
+							}
+						}
+						return "every string put on the list of prefixes is a directory", true
+					}
+				}
+			}
+			if hasSuffixFact(factsOn(at, to), v, true) {
+				return "the string itself, found to end in '/'", true
+			}
+			return "a prefix is encoded as it is on a path where it was not found to end in '/': the borders of that prefix are not those of a directory (an empty prefix yields the borders of the whole key space's first byte), and what lies between them and the neighbouring borders is compacted or spared wrongly", false
+		}
+		for bi, b := range order {
+			bs := perBlock[b]
+			if len(bs) == 0 || bs[0].key == nil {
+				continue
+			}
+			construct := fmt.Sprintf("%s: prefix of border group #%d is a directory", funcName(ctor), bi+1)
+			if why, ok := judge(bs[0].key, nil, b, 0); ok {
+				res.ok(rule, construct, p.pos(bs[0].app.Pos()), why)
+			} else {
+				res.bad(rule, construct, p.pos(bs[0].app.Pos()), why)
+			}
 		}
 	}
 	// (b)
